@@ -664,13 +664,25 @@ bool BaseKillPlugin::setxattr(
   return true;
 }
 
+namespace {
+// The counters live in xattrs anybody owning the cgroup can write (user.*):
+// a value that is not a number counts as 0 instead of throwing out of the
+// kill path.
+int parseXattrCount(const std::string& val) {
+  try {
+    return val.empty() ? 0 : std::stoi(val);
+  } catch (const std::exception&) {
+    return 0;
+  }
+}
+} // namespace
+
 void BaseKillPlugin::reportKillInitiationToXattr(
     const std::string& cgroupPath) {
   // Helper function that reports kill initiation to an extended attribute
   const auto reportKillHelperFunc = [this,
                                      &cgroupPath](const std::string& xattr) {
-    auto prevXattrStr = getxattr(cgroupPath, xattr);
-    const int prevXattr = std::stoi(prevXattrStr != "" ? prevXattrStr : "0");
+    const int prevXattr = parseXattrCount(getxattr(cgroupPath, xattr));
     std::string newXattrStr = std::to_string(prevXattr + 1);
 
     if (setxattr(cgroupPath, xattr, newXattrStr)) {
@@ -688,8 +700,7 @@ void BaseKillPlugin::reportKillCompletionToXattr(
   // Helper function that reports kill completion to an extended attribute
   const auto reportKillHelperFunc = [this, &cgroupPath, numProcsKilled](
                                         const std::string& xattr) {
-    auto prevXattrStr = getxattr(cgroupPath, xattr);
-    const int prevXattr = std::stoi(prevXattrStr != "" ? prevXattrStr : "0");
+    const int prevXattr = parseXattrCount(getxattr(cgroupPath, xattr));
     std::string newXattrStr = std::to_string(prevXattr + numProcsKilled);
 
     if (setxattr(cgroupPath, xattr, newXattrStr)) {
